@@ -8,10 +8,11 @@ import (
 
 func TestMain(m *testing.M) {
 	vh.Main(map[string]vh.CheckFunc{
-		"C17sio": C17sio,
-		"C14sio": C14sio,
-		"C15":    C15,
-		"C13sio": C13sio,
-		"C09sio": C09sio,
+		"C17sio":   C17sio,
+		"C14sio":   C14sio,
+		"C14stdio": C14stdio,
+		"C15":      C15,
+		"C13sio":   C13sio,
+		"C09sio":   C09sio,
 	})
 }
